@@ -477,7 +477,7 @@ theorem bsim_afterH (n : Nat) (hB : BSimB gen X n) (pc p : List Nat) (hs : List 
 /-- The `finally` step of a lowered `try`. -/
 theorem bsim_finish (n : Nat) (hB : BSimB gen X n) (pc p : List Nat) (fin : Block)
     (hcf : CleanB (Hid gen) fin) (hff : finOKB fin = true) (hnf : noExtraB fin = true)
-    (hjf : jumpFreeB fin = true) (hpc : pc.length < p.length)
+    (hjf : escFreeB fin = true) (hpc : pc.length < p.length)
     {hit : Bool} {oa oa' o : Out} {σ' τa τa' σ1 : St}
     (hq : quietB fin = true ∨ hit = false)
     (hag : Agree (Hid gen) τa τa') (hp : BPost (gen pc) hit oa oa' σ' τa') (hfr : Frame gen p.length pc σ' τa')
@@ -488,10 +488,13 @@ theorem bsim_finish (n : Nat) (hB : BSimB gen X n) (pc p : List Nat) (fin : Bloc
       Frame gen p.length pc σ' σ1' := by
   obtain ⟨of, σf, hf, hcase⟩ := finish_some hfin
   obtain ⟨m, σf', of', hxf, hagf, hpf, hfrf⟩ := hB fin pc (2 :: p) τa τa' of σf hcf hff hnf (by simp; omega) hag hf
-  have hhitf : (brkB gen (gen pc) (2 :: p) fin).2 = false := brkB_jumpFree gen (gen pc) _ fin hjf
+  have hhitf : (brkB gen (gen pc) (2 :: p) fin).2 = false := by
+    rw [brkB_hit]
+    simp only [escFreeB, Bool.and_eq_true, Bool.not_eq_true'] at hjf
+    exact hjf.1.1
   have hcurf : σf'.env (gen pc) = τa'.env (gen pc) := hpf.2.2 hhitf
   have hofb : of ≠ .brk := by
-    rcases jumpFreeB_outcome X hjf hf with h | ⟨e, h⟩ <;> simp [h]
+    rcases escFreeB_outcome X hjf hf with h | ⟨e, h⟩ <;> simp [h]
   obtain ⟨hof', _⟩ := hpf.2.1 hofb
   rw [hof'] at hxf
   have hfr' : Frame gen p.length pc σ' σf' := hfr.trans (hfrf.mono (by simp; omega))
